@@ -186,6 +186,16 @@ CLAIMED = {
              "accepts TLC decides whether a closing bracket is missing or a type name unknown.",
         note="floats are compared through re-encoded bytes; the harness tokenizer defines the token view of a text",
         design="5/C15"),
+    "C19": dict(
+        technique="TLA+ transcription of docs/firststeps/sfdl.md (Sfdl: shape and key rules); TLC enumerates all definition trees to "
+                  "depth 3 with their documented shapes and all missing-bracket / unknown-item mutants; each rendered in several text "
+                  "layouts and replayed on the real variables.functions.generate",
+        text="The documented grammar and shape rules are a TLA+ module; TLC enumerates 1884 definitions (depth <= 3, width <= 3, 4 data "
+             "items, optional list names, distinct member keys) with expected shape and ~6k single missing '>' / unknown-name "
+             "mutants; each definition is rendered with varied white space, line breaks, comments and compact layout and the real "
+             "generator's List/Array structure, key order and leaf items are compared; every mutant must raise.",
+        note="the generator stays inside what the document defines (no empty lists, distinct keys, upper-case L)",
+        design="5/C19"),
 }
 
 NOT_YET = "check not built yet in this round (specification and harness in progress; see DESIGN.md section 9)"
